@@ -139,9 +139,15 @@ def run(chk):
     chk.constants = {'clusters': cs, 'fix_constants': FIX}
     timing['generate_and_design_s'] = round(time.time() - t0, 1)
 
+    # every third scenario gets its PathNamer the way the application builds it: from command-line options through
+    # FileWriterSetupTask (four equivalent spellings of the same configuration)
+    for i, s_ in enumerate(scens):
+        if i % 3 == 0 and s_['cfg']['ml']:       # ("no length limit" cannot be said on the command line)
+            s_['opt'] = (i // 3) % 4
     t0 = time.time()
     recs = [r for r in execute(scens) if r is not None]
     timing['execute_real_s'] = round(time.time() - t0, 1)
+    chk.extra['scenarios_via_command_line_options'] = sum(1 for s_ in scens if 'opt' in s_)
     chk.extra['scenarios_generated'] = len(scens)
     chk.extra['scenarios_with_parseable_url'] = len(recs)
 
@@ -169,7 +175,7 @@ def run(chk):
         for bit, clause in sorted(CLAUSES.items()):
             if m['bad'] & bit:
                 chk.violation(signature(clause, rec), '%s false: %s' % (clause, describe(rec)),
-                              {'scenario': {k: rec[k] for k in ('cl', 'cfg', 'part', 'cd', 'hascd')}, 'url': rec['raw'],
+                              {'scenario': dict({k: rec[k] for k in ('cl', 'cfg', 'part', 'cd', 'hascd')}, **({'opt': rec['opt']} if rec.get('opt') is not None else {})), 'url': rec['raw'],
                                'text': {'part': _t(rec['part']), 'url': _t(rec['raw']), 'cd': _t(rec['cd'])}})
         if not s['accepted']:
             chk.drifted('PathName.tla disagrees with wpull.path: %s' % describe(rec), None)
